@@ -2,6 +2,7 @@
 (* Emission wrapper: prints every completed function body as one JSON line. *)
 EXTENDS ScopeGen, Json
 EmitDone == done => PrintT(ToJson([prog |-> Prog]))
+EmitLive == (done /\ ~DeadTail(Prog)) => PrintT(ToJson([prog |-> Prog]))
 
 \* the loop-exit slice: only bodies in which a break sits inside a try statement or a suppressing with
 RECURSIVE BreakUnder(_, _)
@@ -29,6 +30,6 @@ FinalReads(block) ==
                               \/ \E j \in 1..Len(s.handlers) : FinalReads(s.handlers[j]))
 EmitFinally == (done /\ (FinalReads(Prog) \/ (JumpThroughFinally(Prog, FALSE) /\ UsesOf(Prog) # {}))) => PrintT(ToJson([prog |-> Prog]))
 \* the loop-carried slice: one loop whose body contains a continue (definitions travel along the back edge)
-EmitLoopCont == (done /\ HasKind(Prog, {"continue"}) /\ UsesOf(Prog) # {}) => PrintT(ToJson([prog |-> Prog]))
+EmitLoopCont == (done /\ HasKind(Prog, {"continue"}) /\ UsesOf(Prog) # {} /\ ~DeadTail(Prog)) => PrintT(ToJson([prog |-> Prog]))
 EmitLoopExit == (done /\ BreakUnder(Prog, FALSE) /\ UsesOf(Prog) # {}) => PrintT(ToJson([prog |-> Prog]))
 =============================================================================
